@@ -166,8 +166,8 @@ func (r *runner) runWorld(p *Plan, m *Model, img *Image, path string, chain []ma
 	}
 	// explore the images captured in this world
 	for _, im := range w.Captured {
-		if im.Admissible == nil {
-			continue // never resolved (timeline stopped before)
+		if im.Admissible == nil || im.Skip {
+			continue // never resolved (timeline stopped before) / taken inside an unmodelled statement
 		}
 		if len(r.env.Fatal) >= 6 {
 			// this plan already killed six workers: enough evidence, do not
@@ -598,7 +598,7 @@ func (t *timeline) adopt(db *MDB) error {
 		}
 		rows := make([]*MRow, len(o.Rows))
 		for i := range o.Rows {
-			if len(o.Rows[i]) == 0 || o.Rows[i][0].K != "i" {
+			if ti := tb.ColIdx("k"); ti < 0 || ti >= len(o.Rows[i]) || o.Rows[i][ti].K != "i" {
 				// the model's WHERE clauses compare the tag column with integers;
 				// a NULL or non-integer tag (raw INSERT without it) ends the modelling
 				return fmt.Errorf("tag column is not an integer")
@@ -806,6 +806,10 @@ func (t *timeline) run() {
 			if im.Admissible != nil || !im.InStmt || im.StmtIdx != i || t.unmodelled {
 				continue
 			}
+			if s.Kind == KRawSQL {
+				im.Skip = true
+				continue
+			}
 			switch im.Info["site"] {
 			case "wal":
 				im.Admissible = []*Model{before}
@@ -947,7 +951,7 @@ func (t *timeline) run() {
 			t.violate("O-live", fmt.Sprintf("clean close failed: %v %s", err, pmsg), map[string]string{"how": "close-error"}, lastStmt)
 		}
 		for _, im := range w.Captured {
-			if im.Admissible == nil && !t.unmodelled {
+			if im.Admissible == nil && !t.unmodelled && !im.Skip {
 				im.Admissible = []*Model{m.Clone()}
 				im.AdmNames = []string{"acknowledged"}
 			}
